@@ -52,10 +52,12 @@ CLASSES = {
     "rel21": ("relationship", "21", True, True), "rel20": ("relationship", "20", True, True),
     "marking21": ("marking-definition", "21", False, True), "marking20": ("marking-definition", "20", False, True),
     "sco21": ("domain-name", "21", False, True),
+    "lang21": ("language-content", "21", True, True),      # versioned, but neither an SDO nor an SRO class
     "xreg21": ("x-reg", "21", True, True), "xreg20": ("x-reg", "20", True, True),
     "unreg": ("x-unreg", None, True, False),
 }
-TYPES = ["identity", "campaign", "relationship", "marking-definition", "domain-name", "x-reg", "x-unreg", "x-other"]
+TYPES = ["identity", "campaign", "relationship", "marking-definition", "domain-name", "x-reg", "x-unreg", "x-other",
+         "language-content"]
 NIDS = 6
 
 
@@ -210,7 +212,7 @@ def coq_filter(f):
             return "FOther (%s %s)" % ("type_ne" if k == "type" else "oid_ne", name(f["v"]))
         if op == "in":
             return "FOther (%s %s)" % ("type_in" if k == "type" else "oid_in", common.coq_list([name(v) for v in f["v"]]))
-        raise ValueError(op)
+        return "FOther (%s %s %s)" % ("type_op" if k == "type" else "oid_op", COQ_OP[op], name(f["v"]))
     if k == "pay":
         if op == "in":
             return "FOther (pay_in %s)" % common.coq_list([common.coq_N(v) for v in f["v"]])
@@ -497,7 +499,7 @@ def vary_op(rng, f, types, ids, maxpay):
         if op == "in":
             g["v"] = sorted(rng.sample(range(1, maxpay + 2), min(maxpay + 1, rng.randint(1, 3))))
         return g
-    op = rng.choice(["!=", "in"])
+    op = rng.choice(["!=", "in", "<", ">", "<=", ">="] if k in ("type", "id") else ["!=", "in"])
     if k == "id" and f["v"] == ODD_IDS[2]:
         return f       # an id whose prefix is another type's: the model's optimiser knows `=` on id only (design note)
     g["op"] = op
@@ -512,9 +514,9 @@ PROFILES = ["sdo21", "sdo20", "mixed", "custom", "unreg", "unversioned", "everyt
 
 def profile_classes(p):
     return {
-        "sdo21": ["identity21", "campaign21", "rel21"],
+        "sdo21": ["identity21", "campaign21", "rel21", "lang21"],
         "sdo20": ["identity20", "campaign20", "rel20"],
-        "mixed": ["identity21", "identity20", "campaign21", "campaign20", "xreg21"],
+        "mixed": ["identity21", "identity20", "campaign21", "campaign20", "xreg21", "lang21"],
         "custom": ["xreg21", "xreg20", "unreg", "identity21"],
         "unreg": ["unreg"],
         "unversioned": ["marking21", "marking20", "sco21", "identity21"],
@@ -594,7 +596,7 @@ def gen_case(rng, store, profile=None, max_adds=10):
         pay[0] += 1
         props = None
         if cls.startswith("rel"):
-            ends = [a[1] for a in actors if not a[0].startswith(("rel", "marking"))] or [POOL["identity"][5]]
+            ends = [a[1] for a in actors if not a[0].startswith(("rel", "marking", "lang"))] or [POOL["identity"][5]]
             props = {"source_ref": rng.choice(ends), "target_ref": rng.choice(ends), "relationship_type": "related-to"}
         elif idents and cls in ("campaign21", "campaign20", "xreg21", "xreg20") and rng.random() < 0.3:
             props = {"created_by_ref": rng.choice(idents)}
